@@ -86,11 +86,13 @@ def run(res, tier, seed):
                 "(acceptable source times per query, NaN iff none). Public path (every 8th(6th) case, empties included): Tsd int/float, TsdFrame float/int, TsdTensor sources x 3 modes: "
                 "class, row shape, result timestamps, EVERY cell of the returned row decodes to one acceptable source row; TsGroup.value_from every member (3, one empty or shorter) x 3 modes (Tsd / TsdFrame / TsdTensor source by mode); "
                 "interpolate for the same 5 source kinds, every column, duplicates included (at a duplicated time any of its samples is acceptable), float rounding bound instead of a "
-                "fixed tolerance. non-trivial = >=1 query and >=1 source in ep")
+                "fixed tolerance. non-trivial = >=1 query and >=1 source in ep. " + FORMS_RULE)
     res.exhaustive = tier == "thorough"
     cs = cases(tier, seed)
     offs = [0, -3 * U, -1000 * U]
     cs = [([x + offs[n % 3] for x in q], [y + offs[n % 3] for y in s_], [(a + offs[n % 3], b + offs[n % 3]) for a, b in ep], kind) for n, (q, s_, ep, kind) in enumerate(cs)]
+    n_orig = len(cs)
+    cs = cs + extra_cases(tier, seed)
     lines = []
     for q, s, ep, kind in cs:
         for m in (0, 1, 2):
@@ -127,7 +129,7 @@ def run(res, tier, seed):
             if impl_r != mo:
                 # closest mode only: a query EXACTLY equidistant (in ticks) from two distinct source times may resolve either way in float64
                 # when the times are not dyadic; the differing positions must all be such ties, anything else is a disagreement
-                tie = (m == 1 and kind == "decimal" and len(impl_r) == len(mo) == len(exp)
+                tie = (m == 1 and kind.startswith("decimal") and len(impl_r) == len(mo) == len(exp)
                        and all(a_ == b_ or (acc is not None and len(acc) > 1) for a_, b_, (_, acc) in zip(impl_r, mo, exp)))
                 if tie:
                     res.float_ambiguous += 1
@@ -135,12 +137,46 @@ def run(res, tier, seed):
                     res.disagreements.append({"op": "_value_from", "input": inp, "impl": impl_r, "model": mo})
         if n % 2003 == 0:
             res.sample({"q": q, "src": s, "ep": ep, "before": out[3 * n], "closest": out[3 * n + 1], "after": out[3 * n + 2]})
-        if n % (8 if tier == "quick" else 6) == 0:
+        if (n % (8 if tier == "quick" else 6) == 0) if n < n_orig else ((n - n_orig) % (16 if tier == "quick" else 12) == 0):
             res.count("public_cases")
+            if n >= n_orig:
+                res.count("public_cases_kind=" + kind)
             if not q or not s:
                 res.count("public_empty_query_or_source")
             res.evaluations += 1
             res.violations.extend(public_case(nap, q, s, ep))
+    run_forms(res, nap, tier, seed, cs, n_orig)
+
+
+def run_forms(res, nap, tier, seed, cs, n_orig):
+    """the argument-form cases: each takes one input (q, s, ep) of the kernel cases and ONE sampled combination of forms"""
+    import shutil
+    import tempfile
+    frng = random.Random(seed * 29 + 11)
+    orig, extra = cs[:n_orig], cs[n_orig:]
+    nontriv = [c for c in orig if any(G.mem(x, c[2]) for x in c[0]) and any(G.mem(y, c[2]) for y in c[1])]
+    tmp = tempfile.mkdtemp(prefix="c06_forms_")
+    try:
+        for i in range(FORMS_QUICK if tier == "quick" else FORMS_THOROUGH):
+            r = frng.random()
+            if r < 0.4 and nontriv:
+                q, s, ep, kind = frng.choice(nontriv)
+            elif r < 0.8:
+                q, s, ep, kind = frng.choice(extra)
+            elif r < 0.9:
+                q, s, ep, kind = frng.choice(orig)
+            else:
+                q, s, ep, kind = frng.choice(nontriv + extra)
+                q, kind = list(s), "self"
+            if len(s) > P13:
+                s = s[:P13]
+            case_seed = seed * 1000003 + 31 * i + 11
+            res.count("forms_cases")
+            res.count("forms_family=" + kind)
+            res.case(("forms", case_seed, tuple(q), tuple(s), tuple(ep)), nontrivial=any(G.mem(x, ep) for x in q) and any(G.mem(y, ep) for y in s))
+            res.violations.extend(forms_case(nap, case_seed, q, s, ep, kind, res, tmp))
+    finally:
+        shutil.rmtree(tmp, ignore_errors=True)
 
 
 def _decode(row):
@@ -161,7 +197,7 @@ def _cells(n, k, dtype):
     return (np.arange(n)[:, None] + 100 * (np.arange(k)[None, :] + 1)).astype(dtype)
 
 
-def interp_expect(x, pts):
+def interp_expect(x, pts, left=None, right=None):
     """statement: piecewise-linear through the samples pts (time order) of x's interval, edge values held, None = NaN.
     Returns None or (set of acceptable exact values, float rounding bound). At a query equal to a sample time any sample at that
     time is acceptable (duplicates: the broken line is vertical there); before the first / after the last time likewise any
@@ -174,8 +210,12 @@ def interp_expect(x, pts):
     if at:
         return {Fraction(v) for v in at}, 0.0
     if x < pts[0][0]:
+        if left is not None:        # documented parameter: the value for queries before the first sample (default None = first value held)
+            return {Fraction(float(left))}, 0.0
         return {Fraction(v) for y, v in pts if y == pts[0][0]}, 0.0
     if x > pts[-1][0]:
+        if right is not None:
+            return {Fraction(float(right))}, 0.0
         return {Fraction(v) for y, v in pts if y == pts[-1][0]}, 0.0
     k = max(i for i, (y, _) in enumerate(pts) if y < x)
     (y0, v0), (y1, v1) = pts[k], pts[k + 1]
@@ -296,6 +336,621 @@ def public_case(nap, q, s, ep):
     return V
 
 
+# ======================================================================================
+# widened ARGUMENT FORMS (same statement, same oracles; only the way the operands and the call are written varies)
+FORMS_QUICK, FORMS_THOROUGH = 1500, 12000
+FAR = 51200000 * U          # 1e5 s, a multiple of the dyadic unit
+SEC = 10 ** 9
+DTYPES = ["float64", "float32", "float64", "float32", "int64", "int32", "int16", "int8", "uint8", "uint16", "uint32", "uint64", "bool"]
+P13 = 13
+_EPS6 = [[(0, 5)], [(0, 2), (3, 5)], [(0, 1), (2, 3), (4, 5)], [(1, 2)], [(1, 4)], [(0, 1), (4, 5)]]
+
+
+def extra_cases(tier, seed):
+    """further (q, s, ep, kind) for the kernel / model path, already at their final place on the time axis:
+    dyadic lattice 1e5 s away from 0 (both signs) and with an interval END exactly at 0; whole-second lattice (integer time forms);
+    many intervals (up to 12) with up to 13 sources; the EMPTY IntervalSet"""
+    rng = random.Random(seed * 17 + 3)
+    k = 1 if tier == "quick" else 8
+    out = []
+    for step, kind, offs in ((U, "dyadic_far", [FAR, -FAR, -2 * U, -5 * U]), (SEC, "seconds", [0, -3 * SEC, 100000 * SEC, -100000 * SEC])):
+        pts = G.lattice(6, step=step)
+        for _ in range(220 * k):
+            ep = [(a * step, b * step) for a, b in rng.choice(_EPS6)]
+            q = sorted(rng.choices(pts, k=rng.randint(0, 4)))
+            s = sorted(rng.choices(pts, k=rng.randint(0, 4)))
+            o = rng.choice(offs)
+            out.append(([x + o for x in q], [y + o for y in s], [(a + o, b + o) for a, b in ep], kind))
+    for _ in range(160 * k):
+        o = rng.choice([0, -150000, 10 ** 14])
+        ep = G.rand_canonical_iset(rng, 12, lo=o, gaps=(1000, 2000, 5000, 10000, 30000))
+        if not ep:
+            continue
+        src = G.rand_sorted_ts(rng, 13, ep, lo=o, span=300000)
+        q = G.rand_sorted_ts(rng, 10, ep, lo=o, span=300000)
+        if rng.random() < 0.5 and src:
+            q = sorted(q + [rng.choice(src)] + [(a + b) // 2 for a, b in zip(src, src[1:])][:3])
+        out.append((q, src, ep, "decimal_many"))
+    pts = G.lattice(6, step=U)
+    for _ in range(30 * k):
+        o = rng.choice([0, -3 * U, FAR])
+        out.append((sorted(o + x for x in rng.choices(pts, k=rng.randint(0, 3))), sorted(o + x for x in rng.choices(pts, k=rng.randint(0, 3))), [], "empty_ep"))
+    return out
+
+
+def _vals(n, rowshape, dtype, pattern, rng):
+    """(n, *rowshape) source data. ident: cell c of row j = ((37 j + 5 c) mod 13) * m: every cell identifies its row (n <= 13) and the
+    sequence is not linear in j (a wrong interpolation neighbour shows); nonfinite: some cells NaN / +inf / -inf; const; zeros"""
+    k = int(np.prod(rowshape)) if rowshape else 1
+    base = (np.arange(n)[:, None] * 37 + np.arange(k)[None, :] * 5) % P13
+    if dtype == "bool":
+        v = (base % 2).astype(bool)
+    else:
+        m = 8 if dtype in ("int8", "uint8") else 64
+        v = (base * m).astype(dtype)
+    if pattern == "const":
+        v = np.full((n, k), 1 if dtype == "bool" else 24, dtype=dtype)
+    elif pattern == "zeros":
+        v = np.zeros((n, k), dtype=dtype)
+    elif pattern == "nonfinite":
+        v = v.copy()
+        for _ in range(max(1, (n * k) // 3)):
+            if n:
+                v[rng.randrange(n), rng.randrange(k)] = rng.choice([np.nan, np.inf, -np.inf])
+    return v.reshape((n,) + tuple(rowshape))
+
+
+def _layout(v, how):
+    if how == "F" and v.ndim >= 2:
+        return np.asfortranarray(v)
+    if how == "strided":
+        return np.repeat(v, 2, axis=0)[::2]
+    return v
+
+
+def _time_arg(nap, rng, ticks, res, who, allow_unsorted=False, no_series=False):
+    """the same instants written in one of the accepted forms -> (argument, time_units)"""
+    import pandas as pd
+    x = G.arr(ticks)
+    forms = ["ndarray", "list", "tuple", "pd.Series", "pd.Index", "TsIndex", "t", "ms", "us", "strided"]
+    if len(ticks) and all(v % SEC == 0 for v in ticks):
+        forms += ["int64", "int32", "pyint"] * 2
+        if min(ticks) >= 0:
+            forms += ["uint64", "uint32"] + (["uint8"] if max(ticks) < 256 * SEC else [])
+    if len(ticks) and all(float(np.float32(v)) == float(v) for v in x):
+        forms += ["float32"]
+    if len(ticks) == 1:
+        forms += ["pyfloat", "np.float64"]
+    if allow_unsorted and len(set(ticks)) > 1:
+        forms += ["unsorted_list"]
+    if no_series:       # Tsd(t=pandas.Series) means "a Series holding the data, indexed by time" (see the pandas_object form of the callers)
+        forms.remove("pd.Series")
+    f = rng.choice(forms)
+    res.count("form:%s_time=%s" % (who, f))
+    unit = "s"
+    if f == "list":
+        arg = [float(v) for v in x]
+    elif f == "tuple":
+        arg = tuple(float(v) for v in x)
+    elif f == "pd.Series":
+        arg = pd.Series(x, dtype=float)
+    elif f == "pd.Index":
+        arg = pd.Index(x, dtype=float)
+    elif f == "TsIndex":
+        arg = nap.Ts(x).index
+    elif f == "t":
+        arg = nap.Ts(x).t
+    elif f in ("ms", "us"):
+        unit = f
+        arg = np.asarray(ticks, dtype=np.float64) / (1e6 if f == "ms" else 1e3) if len(ticks) else np.array([], dtype=np.float64)
+    elif f == "strided":
+        arg = np.repeat(x, 2)[::2]
+    elif f in ("int64", "int32", "uint64", "uint32", "uint8"):
+        arg = np.array([v // SEC for v in ticks], dtype=f)
+    elif f == "pyint":
+        arg = [int(v // SEC) for v in ticks]
+    elif f == "float32":
+        arg = x.astype(np.float32)
+    elif f == "pyfloat":
+        arg = float(x[0])
+    elif f == "np.float64":
+        arg = np.float64(x[0])
+    elif f == "unsorted_list":
+        arg = [float(v) for v in x]
+        rng.shuffle(arg)
+    else:
+        arg = x
+    return arg, unit
+
+
+def _ep_obj(nap, rng, ep, res, tmp):
+    """the IntervalSet ep written in one of the accepted forms (+ a history step)"""
+    import pandas as pd
+    st, en = G.arr([a for a, _ in ep]), G.arr([b for _, b in ep])
+    forms = ["two_ndarray", "two_lists", "keywords", "DataFrame", "two_pd.Series", "copy_ctor"]
+    if ep:
+        forms += ["two_tuples", "pairs_array", "pairs_list", "ms", "us", "metadata", "unsorted"]
+        if all(v % SEC == 0 for iv in ep for v in iv):
+            forms += ["int64", "int32", "pyint"] * 2 + ((["uint64"] + (["uint16"] if ep[-1][1] < 65536 * SEC else [])) if ep[0][0] >= 0 else [])
+        if len(ep) == 1:
+            forms += ["scalars_float", "scalars_np", "scalars_0d"]
+    f = rng.choice(forms)
+    res.count("form:ep=%s" % f)
+    I = nap.IntervalSet
+    if f == "two_lists":
+        o = I([float(v) for v in st], [float(v) for v in en])
+    elif f == "keywords":
+        o = I(start=st, end=en, time_units="s", metadata=None)
+    elif f == "DataFrame":
+        o = I(pd.DataFrame({"start": st, "end": en}))
+    elif f == "two_pd.Series":
+        o = I(pd.Series(st, dtype=float), pd.Series(en, dtype=float))
+    elif f == "copy_ctor":
+        o = I(I(st, en))
+    elif f == "two_tuples":
+        o = I(tuple(float(v) for v in st), tuple(float(v) for v in en))
+    elif f == "pairs_array":
+        o = I(np.stack([st, en], axis=1))
+    elif f == "pairs_list":
+        o = I([(float(a), float(b)) for a, b in zip(st, en)])
+    elif f in ("ms", "us"):
+        k = 1e6 if f == "ms" else 1e3
+        o = I(np.array([a for a, _ in ep], dtype=np.float64) / k, end=np.array([b for _, b in ep], dtype=np.float64) / k, time_units=f)
+    elif f == "metadata":
+        o = I(st, en, metadata={"label": ["iv%d" % i for i in range(len(ep))], "w": np.arange(len(ep)) * 2.5})
+    elif f == "unsorted":
+        perm = list(range(len(ep)))
+        rng.shuffle(perm)
+        o = I(st[perm], en[perm])
+    elif f in ("int64", "int32", "uint64", "uint16"):
+        o = I(np.array([a // SEC for a, _ in ep], dtype=f), np.array([b // SEC for _, b in ep], dtype=f))
+    elif f == "pyint":
+        o = I([int(a // SEC) for a, _ in ep], [int(b // SEC) for _, b in ep])
+    elif f == "scalars_float":
+        o = I(float(st[0]), float(en[0]))
+    elif f == "scalars_np":
+        a32 = np.float32(st[0])
+        o = I(a32 if float(a32) == float(st[0]) else np.float64(st[0]), np.float64(en[0]))
+    elif f == "scalars_0d":
+        o = I(np.array(st[0]), np.array(en[0]))
+    else:
+        o = I(st, en)
+    h = rng.choice(["none", "none", "intersect_wide", "slice_all", "index_list", "saveload", "union_self"])
+    res.count("form:ep_history=%s" % h)
+    if h == "intersect_wide" and ep:
+        o = o.intersect(I(ep[0][0] / 1e9 - 2.0, ep[-1][1] / 1e9 + 2.0))
+    elif h == "slice_all":
+        o = o[0:len(o)]
+    elif h == "index_list" and ep:
+        o = o[list(range(len(o)))]
+    elif h == "saveload":
+        o.save(tmp + "/ep.npz")
+        o = nap.load_file(tmp + "/ep.npz")
+    elif h == "union_self" and ep:
+        o = o.union(o)
+    return o
+
+
+def _row_ok(row, acc, s, vals):
+    """statement: the returned row IS the row of one acceptable source sample (every cell, NaN / inf cells included); all NaN iff no candidate"""
+    row = np.asarray(row, dtype=float).reshape(-1)
+    if acc is None:
+        return bool(np.all(np.isnan(row)))
+    return any(s[j] in acc and np.array_equal(row, np.asarray(vals[j], dtype=float).reshape(-1), equal_nan=True) for j in range(len(s)))
+
+
+def _vf_check(op, r, b, s, vals, exp, inp, tag, res=None):
+    """the public value_from result r against the statement (exp from oracle_times); s / vals = times and values of b's samples"""
+    key = dict(tag, op=op)
+    if type(r) is not type(b) or len(r) != len(exp) or r.values.shape[1:] != b.values.shape[1:]:
+        return {"key": dict(key, part="class_length"), "what": "wrong class/length/row shape", "input": inp}
+    if hasattr(b, "columns") and list(r.columns) != list(b.columns):
+        return {"key": dict(key, part="columns"), "what": "the returned samples do not carry b's column labels", "input": inp, "impl": [str(c) for c in r.columns]}
+    if [C.to_ns(x) for x in r.t] != [x for x, _ in exp]:
+        return {"key": dict(key, part="times"), "what": "result timestamps are not the queries lying in ep", "input": inp, "impl": [C.to_ns(x) for x in r.t]}
+    rows = np.asarray(r.values).reshape(len(r), -1) if len(r) else []
+    if res is not None:
+        res.count("forms_rows_checked_value", sum(acc is not None for _, acc in exp))
+        res.count("forms_rows_checked_nan", sum(acc is None for _, acc in exp))
+    for row, (x, acc) in zip(rows, exp):
+        if not _row_ok(row, acc, s, vals):
+            return {"key": dict(key, part="row"), "what": "public value_from: the returned row is not (the whole of) an acceptable source row / NaN iff no candidate",
+                    "input": inp, "x": x, "impl": np.asarray(row, dtype=float).tolist()}
+    if len(exp):
+        anynan = any(acc is None for _, acc in exp)
+        bd, rd = np.asarray(b.values).dtype, np.asarray(r.values).dtype
+        if (not anynan and rd != bd) or (anynan and not (rd == bd if np.issubdtype(bd, np.floating) else np.issubdtype(rd, np.floating))):
+            return {"key": dict(key, part="dtype"), "what": "values are b's samples: b's dtype must be kept (a non-float dtype may only become float when a NaN has to be stored)",
+                    "input": inp, "impl": str(rd), "expected": str(bd)}
+    return None
+
+
+def _interp_check(ri, b, a_ticks, s, vals, ep, left, right, inp, tag, res):
+    key = dict(tag, op="interpolate")
+    qq = [x for x in a_ticks if G.mem(x, ep)]
+    if type(ri) is not type(b) or ri.values.shape[1:] != b.values.shape[1:]:
+        return {"key": dict(key, part="class"), "what": "interpolate changed the class / row shape", "input": inp}
+    if hasattr(b, "columns") and list(ri.columns) != list(b.columns):
+        return {"key": dict(key, part="columns"), "what": "interpolate lost b's column labels", "input": inp, "impl": [str(c) for c in ri.columns]}
+    if [C.to_ns(x) for x in ri.t] != qq:
+        return {"key": dict(key, part="times"), "what": "interpolate timestamps are not the queries in ep", "input": inp, "impl": [C.to_ns(x) for x in ri.t]}
+    got = np.asarray(ri.values, dtype=float).reshape(len(qq), -1) if qq else []
+    fv = np.asarray(vals, dtype=float).reshape(len(s), int(np.prod(np.asarray(vals).shape[1:])))
+    for x, row in zip(qq, got):
+        a0, b0 = [(u, w) for u, w in ep if u <= x <= w][0]
+        inside = [k for k, y in enumerate(s) if a0 <= y <= b0]
+        for c in range(fv.shape[1]):
+            val = float(row[c])
+            pts = [(s[k], float(fv[k, c])) for k in inside]
+            if not pts:
+                if not np.isnan(val):
+                    return {"key": dict(key, part="nan"), "what": "interval without source sample is not NaN", "input": inp, "x": x}
+                continue
+            # the samples the statement's value depends on
+            at = [v for y, v in pts if y == x]
+            if at:
+                dep = at
+            elif x < pts[0][0]:
+                dep = [] if left is not None else [v for y, v in pts if y == pts[0][0]]
+            elif x > pts[-1][0]:
+                dep = [] if right is not None else [v for y, v in pts if y == pts[-1][0]]
+            else:
+                k0 = max(i for i, (y, _) in enumerate(pts) if y < x)
+                dep = [pts[k0][1], pts[k0 + 1][1]]
+            if all(np.isfinite(v) for v in dep):
+                acc, tol = interp_expect(x, pts, left=left, right=right)
+                good = (not np.isnan(val)) and np.isfinite(val) and any(abs(Fraction(val) - w) <= Fraction(tol) for w in acc)
+                expd = sorted(float(w) for w in acc)
+            elif at or x < pts[0][0] or x > pts[-1][0]:
+                # a held / coinciding sample that is NaN or infinite: the value is that sample's
+                good = any((np.isnan(v) and np.isnan(val)) or v == val for v in dep)
+                expd = [repr(v) for v in dep]
+            else:
+                res.count("interp_between_nonfinite_samples_not_determined")
+                continue
+            res.count("forms_interp_cells_checked")
+            if not good:
+                return {"key": dict(key, part="value", got_nan=bool(np.isnan(val))), "what": "interpolated value is not the piecewise-linear value within the same interval",
+                        "input": inp, "x": x, "column": c, "impl": repr(val), "expected": expd}
+    return None
+
+
+FORMS_RULE = (
+    "WIDENED ARGUMENT FORMS. Further kernel/model cases (kind=dyadic_far: the dyadic lattice +-1e5 s away from 0 and with an interval end exactly at 0; kind=seconds: whole-second "
+    "lattice at 0, -3 s, +-1e5 s; kind=decimal_many: up to 12 intervals, 13 sources, at 0 / straddling 0 / 1e5 s; kind=empty_ep: the EMPTY IntervalSet), each also through the full "
+    "public battery every 16th(12th). forms_cases: one input of those families (or 'self': the source queried with itself) x ONE seeded combination of forms, checked by the same "
+    "statement oracles (acceptable source ROW by exact cell equality incl. NaN/inf cells, NaN iff no candidate, result times, class, row shape, column labels, dtype kept unless NaN must be stored; "
+    "interpolate: exact rational piecewise-linear value with the float rounding bound). "
+    "Axis 1 (data): float64/float32/int64/int32/int16/int8/uint8..uint64/bool sources; NaN, +inf, -inf cells (value_from: copied; interpolate: checked wherever the samples the value "
+    "depends on are finite or the query coincides with / is held from a non-finite sample, else counted interp_between_nonfinite_samples_not_determined), all-equal data, zeros; C / Fortran / strided layouts. "
+    "Axis 2 (time forms): the instants of query, source and ep written as ndarray, list, tuple, pandas Series / Index, another object's TsIndex or .t, strided view, float32, "
+    "int64/int32/uint8/uint32/uint64 arrays and Python ints (whole-second families), Python / numpy scalars and 0-d arrays (single sample / single interval), unsorted lists; "
+    "Tsd / TsdFrame sources also from a pandas Series / DataFrame; ep as two arrays / lists / tuples / Series, array or list of pairs, DataFrame, copy constructor, unsorted, with metadata. "
+    "Axis 3 (parameters): value_from(data, ep, mode) and TsGroup.value_from(tsd, ep, mode) positional / keyword / mixed order, mode at its default, as numpy.str_, in another letter case "
+    "(clean exception or the statement for the mode it spells), ep None / omitted / everything defaulted (ep := the source's time support at the call); interpolate(ts, ep, left, right) "
+    "positional / keyword, ep None / omitted, left / right None, given alone, given together, as int / float / numpy scalars (a query before the first / after the last sample of its interval "
+    "then takes the given value, the documented meaning; everything else as in the statement). "
+    "Axis 4 (units): query, source, ep and raw TsGroup members given in ms / us must behave as the same instants in s. "
+    "Axis 5 (placement): negative times, intervals straddling 0 or ending at 0, +-1e5 s offsets, samples on interval ends. "
+    "Axis 6 (degenerate): empty / single / all-equal-time query and source (explicit time support), duplicates, empty IntervalSet, 1..12 intervals, intervals with zero or one sample, "
+    "empty TsGroup, group with an empty member, group keys unsorted / multi-digit strings / integral floats / numpy ints / large. "
+    "Axis 7 (classes): query Ts / Tsd / TsdFrame / TsdTensor, source Tsd / TsdFrame (1-3 columns; default, string, unsorted string, integer not 0..n-1, unsorted integer, mixed labels) / "
+    "TsdTensor (row shapes (2,2), (1,3), (2,1,2), (1,1)), group members Ts / Tsd / raw arrays, ep with and without metadata. "
+    "Axis 8 (histories): operands after restrict / slice / get / *1 / numpy.positive / save+load / column re-selection / a previous value_from, ep after intersect / slice / index list / "
+    "save+load / union with itself, group after restrict / index list / bypass_check=True / metadata; the same live objects used twice; the source used as its own query (shared memory).")
+MODE_VARIANTS = {"before": ["Before", "BEFORE"], "closest": ["Closest", "CLOSEST"], "after": ["After", "AFTER"]}
+
+
+def forms_case(nap, case_seed, q, s, ep, fam, res, tmp):
+    try:
+        return _forms_case(nap, case_seed, q, s, ep, fam, res, tmp)
+    except Exception as ex:
+        import traceback
+        return [{"key": {"op": "value_from", "part": "exception", "where": "building_operands", "forms": True},
+                 "what": "building an operand in an accepted form raised %s: %s" % (type(ex).__name__, str(ex)[:160]),
+                 "input": {"q": q, "src": s, "ep": ep, "family": fam, "form_seed": case_seed}, "trace": traceback.format_exc()[-600:]}]
+
+
+def _forms_case(nap, case_seed, q, s, ep, fam, res, tmp):
+    """ONE sampled combination of argument forms for value_from, interpolate and (every third case) TsGroup.value_from on the input (q, s, ep);
+    every random choice derives from case_seed (stored in the violation's input: replay rebuilds the very same objects)"""
+    rng = random.Random(case_seed)
+    V = []
+    n = len(s)
+    allt = q + s + [v for iv in ep for v in iv] + [0]
+    wide_t = (min(allt) - SEC, max(allt) + SEC)
+    wide = nap.IntervalSet(wide_t[0] / 1e9, wide_t[1] / 1e9)
+    F = {}          # the chosen forms (goes into the violation's input)
+
+    def pick(name, options):
+        F[name] = rng.choice(options)
+        res.count("form:%s=%s" % (name, F[name]))
+        return F[name]
+
+    # ---- ep
+    epo = _ep_obj(nap, rng, ep, res, tmp)
+    implicit = bool(ep) and rng.random() < 0.2          # ep omitted / None: the source's time support is used
+    F["ep_implicit"] = implicit
+    # ---- source b
+    cls = pick("source_class", ["Tsd", "TsdFrame", "TsdFrame", "TsdTensor"])
+    dtype = pick("dtype", DTYPES)
+    pattern = rng.choice(["ident"] * 6 + (["nonfinite"] * 3 if dtype.startswith("float") else []) + ["const", "zeros"])
+    res.count("form:data=%s" % pattern)
+    F["data"] = pattern
+    cols = None
+    if cls == "Tsd":
+        rowshape = ()
+    elif cls == "TsdFrame":
+        k = rng.choice([1, 2, 3])
+        rowshape = (k,)
+        style = pick("columns", ["default", "strings", "strings_unsorted", "ints_not_0n", "ints_unsorted", "mixed"])
+        cols = {"default": None, "strings": ["a", "b", "c"][:k], "strings_unsorted": ["z", "m", "b"][:k], "ints_not_0n": [3, 7, 20][:k],
+                "ints_unsorted": [12, 5, 9][:k], "mixed": [5, "x", 2.5][:k]}[style]
+    else:
+        rowshape = pick("tensor_shape", [(2, 2), (1, 3), (2, 1, 2), (1, 1)])
+    vals0 = _layout(_vals(n, rowshape, dtype, pattern, rng), pick("layout", ["C", "C", "F", "strided"]))
+    keep = [j for j in range(n) if G.mem(s[j], ep)] if implicit else list(range(n))
+    s_eff = [s[j] for j in keep]
+    zero_b = len(set(s)) <= 1
+    pandas_obj = cls in ("Tsd", "TsdFrame") and rng.random() < 0.12
+    targ, unit = _time_arg(nap, rng, s, res, "source", no_series=(cls == "Tsd")) if not pandas_obj else (None, "s")
+    kw = {}
+    if unit != "s":
+        kw["time_units"] = unit
+    if implicit:
+        kw["time_support"] = epo
+    elif zero_b or rng.random() < 0.5:
+        kw["time_support"] = wide
+    ctor = pick("source_ctor", ["positional", "keywords"]) if not pandas_obj else pick("source_ctor", ["pandas_object"])
+    if pandas_obj:
+        import pandas as pd
+        kw.pop("time_units", None)
+        b = nap.Tsd(pd.Series(vals0, index=G.arr(s)), **kw) if cls == "Tsd" else nap.TsdFrame(pd.DataFrame(vals0, index=G.arr(s), columns=cols), **kw)
+    elif cls == "Tsd":
+        b = nap.Tsd(targ, vals0, **kw) if ctor == "positional" else nap.Tsd(t=targ, d=vals0, **kw)
+    elif cls == "TsdFrame":
+        ck = {} if cols is None else {"columns": cols}
+        b = nap.TsdFrame(targ, vals0, **kw, **ck) if ctor == "positional" else nap.TsdFrame(t=targ, d=vals0, **kw, **ck)
+    else:
+        b = nap.TsdTensor(targ, vals0, **kw) if ctor == "positional" else nap.TsdTensor(t=targ, d=vals0, **kw)
+    hb = pick("source_history", ["none", "none", "restrict_wide", "slice_all", "get_wide", "times_one", "np_positive", "saveload", "own_value_from", "loc_columns"])
+    if hb == "restrict_wide" and not implicit:
+        b = b.restrict(wide)
+    elif hb == "slice_all":
+        b = b[0:len(b)]
+    elif hb == "get_wide":
+        b = b.get(wide_t[0] / 1e9, wide_t[1] / 1e9)
+    elif hb == "times_one" and dtype != "bool":
+        b = b * 1
+    elif hb == "np_positive" and dtype != "bool":
+        b = np.positive(b)
+    elif hb == "saveload" and not (cls == "TsdFrame" and cols is not None and F.get("columns") == "mixed"):
+        b.save(tmp + "/b.npz")
+        b = nap.load_file(tmp + "/b.npz")
+    elif hb == "own_value_from" and not implicit and len(set(s_eff)) == len(s_eff) and len(s_eff) > 1:
+        b = nap.Ts(G.arr(s_eff)).value_from(b, wide, "closest")      # a result fed into the next operation
+    elif hb == "loc_columns" and cls == "TsdFrame" and rowshape[0] > 1:
+        b = b.loc[list(b.columns)[::-1]]
+    vals = np.asarray(b.values)
+    base = {"q": q, "src": s, "ep": ep, "family": fam, "form_seed": case_seed}
+    if implicit:
+        # "If None, the time support of the (source) object is used": the statement's ep is b.time_support as it stands at the call
+        ep_given, ep = ep, [(C.to_ns(u), C.to_ns(w)) for u, w in b.time_support.values]
+        base["ep_used"] = ep
+        if not ep:
+            res.count("form:implicit_ep_is_empty_support")
+    tag = {"source": cls, "forms": True}
+    if [C.to_ns(x) for x in b.t] != s_eff or len(vals) != len(s_eff):
+        V.append({"key": {"op": "value_from", "part": "operand_times", "operand": "source", "forms": True},
+                  "what": "the source built from the same instants in another form does not hold them", "input": dict(base, forms=dict(F)), "impl": [C.to_ns(x) for x in b.t]})
+        return V
+    # ---- query a
+    if fam == "self":
+        a, q_eff = b, list(s_eff)
+        F["query_class"] = "the_source_itself"
+        res.count("form:query_class=the_source_itself")
+    else:
+        acls = pick("query_class", ["Ts", "Ts", "Ts", "Tsd", "TsdFrame", "TsdTensor"])
+        qarg, qunit = _time_arg(nap, rng, q, res, "query", allow_unsorted=(acls == "Ts"), no_series=(acls == "Tsd"))
+        kwq = {} if qunit == "s" else {"time_units": qunit}
+        if len(set(q)) <= 1 or rng.random() < 0.4:
+            kwq["time_support"] = wide
+        if acls == "Ts":
+            a = nap.Ts(qarg, **kwq) if rng.random() < 0.5 else nap.Ts(t=qarg, **kwq)
+        elif acls == "Tsd":
+            a = nap.Tsd(qarg, np.arange(len(q)) * 7 - 3, **kwq)
+        elif acls == "TsdFrame":
+            a = nap.TsdFrame(qarg, np.ones((len(q), 2)), columns=["u", "v"], **kwq)
+        else:
+            a = nap.TsdTensor(qarg, np.zeros((len(q), 2, 2)), **kwq)
+        ha = pick("query_history", ["none", "none", "none", "restrict_wide", "slice_all", "saveload", "get_wide"])
+        if ha == "restrict_wide":
+            a = a.restrict(wide)
+        elif ha == "slice_all":
+            a = a[0:len(a)]
+        elif ha == "saveload":
+            a.save(tmp + "/a.npz")
+            a = nap.load_file(tmp + "/a.npz")
+        elif ha == "get_wide":
+            a = a.get(wide_t[0] / 1e9, wide_t[1] / 1e9)
+        q_eff = list(q)
+        if [C.to_ns(x) for x in a.t] != q_eff:
+            V.append({"key": {"op": "value_from", "part": "operand_times", "operand": "query", "forms": True},
+                      "what": "the query series built from the same instants in another form does not hold them", "input": dict(base, forms=dict(F)), "impl": [C.to_ns(x) for x in a.t]})
+            return V
+    if [(C.to_ns(u), C.to_ns(w)) for u, w in epo.values] != [tuple(iv) for iv in (ep_given if implicit else ep)]:
+        V.append({"key": {"op": "value_from", "part": "operand_times", "operand": "ep", "forms": True},
+                  "what": "the IntervalSet built from the same instants in another form does not hold them", "input": dict(base, forms=dict(F)), "impl": np.asarray(epo.values).tolist()})
+        return V
+
+    def guard(op, f):
+        try:
+            v = f()
+        except Exception as ex:
+            v = {"key": {"op": op, "part": "exception", "forms": True}, "what": "public %s raised %s: %s" % (op, type(ex).__name__, str(ex)[:160]), "input": dict(base, forms=dict(F))}
+        if v:
+            V.append(v)
+
+    # ---- value_from
+    def do_vf():
+        mode = rng.choice(MODES)
+        call = pick("vf_call", ["positional", "keywords", "mixed", "mode_default", "mode_np_str", "mode_other_case"]) if not implicit else \
+            pick("vf_call_implicit_ep", ["ep_None_positional", "ep_None_keyword", "ep_omitted", "all_defaults"])
+        if call in ("mode_default", "all_defaults"):
+            mode = "closest"
+        F["mode"] = mode
+        inp = dict(base, mode=mode, forms=dict(F))
+        exp = oracle_times(q_eff, s_eff, ep, mode)
+        if call == "mode_other_case":
+            # not one of the three documented strings: a clean exception, or the statement for the mode it spells
+            mv = rng.choice(MODE_VARIANTS[mode])
+            try:
+                r = a.value_from(b, epo, mv)
+            except (ValueError, TypeError, KeyError):
+                res.count("mode_other_case_rejected")
+                return None
+            return _vf_check("value_from", r, b, s_eff, vals, exp, dict(inp, mode_given=mv), dict(tag, mode_other_case=True), res)
+        if call == "positional":
+            r = a.value_from(b, epo, mode)
+        elif call == "keywords":
+            r = a.value_from(data=b, ep=epo, mode=mode)
+        elif call == "mixed":
+            r = a.value_from(b, mode=mode, ep=epo)
+        elif call == "mode_default":
+            r = a.value_from(b, epo)
+        elif call == "mode_np_str":
+            r = a.value_from(b, epo, np.str_(mode))
+        elif call == "ep_None_positional":
+            r = a.value_from(b, None, mode)
+        elif call == "ep_None_keyword":
+            r = a.value_from(b, ep=None, mode=mode)
+        elif call == "ep_omitted":
+            r = a.value_from(b, mode=mode)
+        else:
+            r = a.value_from(b)
+        v = _vf_check("value_from", r, b, s_eff, vals, exp, inp, dict(tag, mode=mode), res)
+        if v is None and rng.random() < 0.3:
+            # the same live objects used a second time
+            res.count("form:live_objects_used_twice")
+            r2 = a.value_from(b, b.time_support if implicit else epo, mode)
+            if not (np.array_equal(r.t, r2.t) and np.array_equal(np.asarray(r.values, dtype=float), np.asarray(r2.values, dtype=float), equal_nan=True)):
+                return {"key": dict(tag, op="value_from", part="second_use"), "what": "the same call on the same live objects gives another result", "input": inp}
+        return v
+
+    guard("value_from", do_vf)
+
+    # ---- interpolate
+    def do_interp():
+        left = right = None
+        call = pick("interp_call", ["positional", "keywords", "left_right_None", "left_pos", "right_kw", "both_pos", "both_kw"]) if not implicit else \
+            pick("interp_call_implicit_ep", ["ep_None_positional", "ep_None_keyword", "ep_omitted", "ep_omitted_right_kw"])
+        def num():
+            f = pick("edge_value_form", ["int", "float", "np.float64", "np.float32", "np.int64", "np.uint8", "negative_float"])
+            return {"int": 7, "float": 2.5, "np.float64": np.float64(-1.25), "np.float32": np.float32(0.5), "np.int64": np.int64(-4), "np.uint8": np.uint8(9), "negative_float": -1e6}[f]
+        if call == "positional":
+            ri = b.interpolate(a, epo)
+        elif call == "keywords":
+            ri = b.interpolate(ts=a, ep=epo)
+        elif call == "left_right_None":
+            ri = b.interpolate(a, epo, left=None, right=None)
+        elif call == "left_pos":
+            left = num()
+            ri = b.interpolate(a, epo, left)
+        elif call == "right_kw":
+            right = num()
+            ri = b.interpolate(a, epo, right=right)
+        elif call == "both_pos":
+            left, right = num(), num()
+            ri = b.interpolate(a, epo, left, right)
+        elif call == "both_kw":
+            left, right = num(), num()
+            ri = b.interpolate(ts=a, right=right, left=left, ep=epo)
+        elif call == "ep_None_positional":
+            ri = b.interpolate(a, None)
+        elif call == "ep_None_keyword":
+            ri = b.interpolate(a, ep=None)
+        elif call == "ep_omitted":
+            ri = b.interpolate(a)
+        else:
+            right = num()
+            ri = b.interpolate(a, right=right)
+        inp = dict(base, forms=dict(F), left=None if left is None else float(left), right=None if right is None else float(right))
+        return _interp_check(ri, b, q_eff, s_eff, vals, ep, left, right, inp, dict(tag, left_given=left is not None, right_given=right is not None), res)
+
+    guard("interpolate", do_interp)
+
+    # ---- TsGroup.value_from, every third case
+    def do_group():
+        mode = rng.choice(MODES)
+        members = rng.choice([[q_eff, q_eff[::2], q_eff[1:]], [q_eff, []], [q_eff], []])
+        res.count("form:group_size=%d" % len(members))
+        if any(len(m_) == 0 for m_ in members):
+            res.count("form:group_with_empty_member")
+        kstyle = pick("group_keys", ["ints_unsorted", "strings_multidigit", "list_0n", "floats_integral", "np.int64", "large"])
+        keys = {"ints_unsorted": [4, 1, 9], "strings_multidigit": ["10", "9", "102"], "list_0n": [0, 1, 2], "floats_integral": [2.0, 7.0, 5.0],
+                "np.int64": [np.int64(3), np.int64(11), np.int64(2)], "large": [100000, 7, 65536]}[kstyle][:len(members)]
+        mform = pick("group_member", ["Ts", "Tsd", "raw_ndarray", "raw_list_ms", "raw_us"])
+        tu = "s"
+
+        def member(m_):
+            if mform == "Ts":
+                return nap.Ts(G.arr(m_), time_support=wide)
+            if mform == "Tsd":
+                return nap.Tsd(G.arr(m_), np.arange(len(m_)) + 0.5, time_support=wide)
+            if mform == "raw_ndarray":
+                return G.arr(m_)
+            if mform == "raw_list_ms":
+                return [v / 1e6 for v in m_]
+            return np.asarray(m_, dtype=np.float64) / 1e3
+        tu = {"raw_list_ms": "ms", "raw_us": "us"}.get(mform, "s")
+        objs = [member(m_) for m_ in members]
+        data = objs if kstyle == "list_0n" else dict(zip(keys, objs))
+        gform = pick("group_ctor", ["support_kw", "support_pos", "bypass_check", "metadata"])
+        raw = mform.startswith("raw")
+        if gform == "support_pos":
+            g = nap.TsGroup(data, wide, tu)
+        elif gform == "bypass_check" and not raw:
+            g = nap.TsGroup(data, time_support=wide, bypass_check=True)
+        elif gform == "metadata" and len(members):
+            g = nap.TsGroup(data, time_support=wide, time_units=tu, metadata={"lab": ["m%d" % i for i in range(len(members))]})
+        else:
+            g = nap.TsGroup(data, time_support=wide, time_units=tu)
+        hg = pick("group_history", ["none", "none", "restrict_wide", "index_all"])
+        if hg == "restrict_wide":
+            g = g.restrict(wide)
+        elif hg == "index_all" and len(members):
+            g = g[list(g.keys())]
+        ikeys = [int(k_) for k_ in keys]
+        call = pick("group_call", ["positional", "keywords", "mode_default"]) if not implicit else pick("group_call_implicit_ep", ["ep_omitted", "ep_None", "all_defaults"])
+        if call in ("mode_default", "all_defaults"):
+            mode = "closest"
+        inp = dict(base, mode=mode, forms=dict(F), members=members)
+        if call == "positional":
+            rg = g.value_from(b, epo, mode)
+        elif call == "keywords":
+            rg = g.value_from(tsd=b, ep=epo, mode=mode)
+        elif call == "mode_default":
+            rg = g.value_from(b, epo)
+        elif call == "ep_omitted":
+            rg = g.value_from(b, mode=mode)
+        elif call == "ep_None":
+            rg = g.value_from(b, None, mode)
+        else:
+            rg = g.value_from(b)
+        if type(rg) is not nap.TsGroup or list(rg.keys()) != sorted(ikeys):
+            return {"key": {"op": "TsGroup.value_from", "part": "keys", "forms": True}, "what": "group value_from lost/reordered members", "input": inp,
+                    "impl": [int(k_) for k_ in rg.keys()] if hasattr(rg, "keys") else str(type(rg))}
+        for k_, m_ in zip(ikeys, members):
+            v = _vf_check("TsGroup.value_from", rg[k_], b, s_eff, vals, oracle_times(m_, s_eff, ep, mode), dict(inp, member=k_), dict(tag, mode=mode), res)
+            if v:
+                return v
+        return None
+
+    if case_seed % 3 == 0:
+        guard("TsGroup.value_from", do_group)
+    return V
+
+
 def search(res, seed):
     r2 = C.Result()
     run(r2, "thorough", seed)
@@ -308,6 +963,18 @@ def replay(payload):
     v = payload.get("violation") or (payload.get("disagreements") or [{}])[0]
     inp = v.get("input", {})
     q, s, ep = inp.get("q", []), inp.get("src", []), [tuple(x) for x in inp.get("ep", [])]
+    if "form_seed" in inp:
+        # an argument-form case: the seed rebuilds the very same operands and calls
+        import shutil
+        import tempfile
+        tmp = tempfile.mkdtemp(prefix="c06_forms_")
+        try:
+            fv = [v_ for v_ in forms_case(nap, int(inp["form_seed"]), q, s, ep, inp.get("family", "dyadic"), C.Result(), tmp) if C.match_known("C06", v_) is None]
+        finally:
+            shutil.rmtree(tmp, ignore_errors=True)
+        for v_ in fv:
+            print("forms violation:", {k_: v_[k_] for k_ in v_ if k_ != "trace"})
+        return 1 if fv else 0
     bad = 0
     for mode in ([inp["mode"]] if "mode" in inp else MODES):
         t, vals = CF._value_from(G.arr(q), G.arr(s), np.arange(len(s)) + 100.0, G.arr([a for a, _ in ep]), G.arr([b for _, b in ep]), mode=mode)
